@@ -87,6 +87,7 @@ PROPS = {
                       {"engine": "e2e", "test": "TestVF_C17_E2E", "quick": (4, 40), "thorough": (16, 250), "shrinktime": "10s"}]},
     "C18": {"level": "exploration", "assumptions": BASE_ASSUME + ["the harness does not own the scheduler: relative speeds of reader and writer are perturbed through GOMAXPROCS, CPU-burning goroutines, sender pacing and chunking; the race detector reports races on executions that occur", "one connection per output directory (file names have one-second resolution)"],
             "parts": [{"engine": "tw", "race": True, "test": "TestVF_C18", "quick": (8, 16), "thorough": (16, 120), "shrinktime": "15s", "quick_timeout": 600},
+                      {"engine": "tw", "race": False, "test": "TestVF_C18_Clock", "quick": (2, 6), "thorough": (8, 20), "shrinktime": "5s"},
                       {"engine": "tw", "race": True, "test": "TestVF_C18_Stall", "quick": (3, 1), "thorough": (4, 1), "thorough_env": {"VERIF_SILENCE_S": 65}, "shrinktime": "1s"},
                       {"engine": "tw", "race": True, "test": "TestVF_C18_Rotation", "kind": "plain", "tiers": ["thorough"]},
                       {"engine": "tw", "race": True, "test": "TestVF_C18_Reconnects", "kind": "plain", "tiers": ["thorough"]}]},
